@@ -186,8 +186,17 @@ def writer_item_loop(ctx: Ctx, fq: str, notes_exempt: bool) -> None:
                         handmade += 1
                         ctx.bad("R-WS", fi, f"parameter text for the item is built by MSDParameter", f"{x.id} = {src(b.value)} under {unparse_facts(facts(ctx, fi, b.node))}: "
                                 "the text is assembled by hand, so '\\', ';' and '//' inside the value are not escaped", node=b.node)
+    sites: List[Tuple[List[ast.expr], ast.AST]] = []
     for c in pcalls:
-        elts = param_elts(fi, c)
+        a0 = c.args[0] if len(c.args) == 1 and not c.keywords else None
+        if isinstance(a0, ast.Name):
+            tb = [b for b in locals_of(fi).b.get(a0.id, []) if b.kind == "assign"]
+            if tb and all(isinstance(b.value, (ast.Tuple, ast.List)) for b in tb) and len(tb) == len(locals_of(fi).b.get(a0.id, [])):
+                for b in tb:
+                    sites.append((list(b.value.elts), b.node))
+                continue
+        sites.append((param_elts(fi, c), c))
+    for elts, c in sites:
         fs = facts(ctx, fi, c)
         in_multi = fact_in_table(ctx, fi, fs, kvar, multi)
         v_none = fact_is_none(fs, vvar)
@@ -1063,8 +1072,8 @@ def null_sweep(ctx: Ctx, fmt: str = "both") -> None:
                 par = parent(fi, node)
                 if isinstance(par, ast.Attribute) and par.value is node and isinstance(parent(fi, par), ast.Call) and parent(fi, par).func is par:
                     sink = f"receiver of .{par.attr}()"
-                elif isinstance(par, (ast.Tuple, ast.List)) and isinstance(parent(fi, par), ast.Call) and is_msdparam(ctx, fi, parent(fi, par)) \
-                        and par.elts and par.elts[0] is not node:
+                elif isinstance(par, (ast.Tuple, ast.List)) and par.elts and par.elts[0] is not node and (
+                        (isinstance(parent(fi, par), ast.Call) and is_msdparam(ctx, fi, parent(fi, par))) or _feeds_msdparam(ctx, fi, par)):
                     sink = "MSDParameter component"
                 elif isinstance(par, ast.BinOp) and isinstance(par.op, ast.Add):
                     sink = "operand of +"
@@ -1080,6 +1089,15 @@ def null_sweep(ctx: Ctx, fmt: str = "both") -> None:
                     n += 1
                     ctx.bad("R-NULL", fi, f"{src(node)} as MSDParameter component", "a mapping lookup (None for a key-only parameter) reaches MSDParameter unguarded", node=node)
     ctx.floor("nullable string sinks in serializers", n, 2 if fmt == "sm" else 3)
+
+
+def _feeds_msdparam(ctx: Ctx, fi: FunctionInfo, tup: ast.AST) -> bool:
+    """The tuple is assigned to a local that is the sole argument of an MSDParameter(...) call."""
+    par = parent(fi, tup)
+    if isinstance(par, ast.Assign) and len(par.targets) == 1 and isinstance(par.targets[0], ast.Name):
+        nm = par.targets[0].id
+        return any(is_msdparam(ctx, fi, c) and len(c.args) == 1 and isinstance(c.args[0], ast.Name) and c.args[0].id == nm for c in calls(fi))
+    return False
 
 
 def _truthy(fs, var: ast.expr) -> bool:
